@@ -132,6 +132,22 @@ SharedFnCases == {[nodes |-> <<SNode(1, k1[1], k1[2]), SNode(2, k2[1], k2[2])>>]
                      k1 \in SKinds, k2 \in SKinds}
             \cup {[nodes |-> <<SNode(1, k[1], k[2])>>] : k \in SKinds}
 
+\* (7) one upstream value -- ordinary, None, 0, '', False; the value of a plain function or one value of a generator -- consumed
+\*     by two tasks and / or by two parameters of one task, with the tasks placed on workers (one runner Memory per worker, as
+\*     the worker loop keeps it) in three ways: "each" task on its own worker, all on "one" worker in sequence, the producer on
+\*     one worker and all "consumers" together on another.  What a task receives must not depend on the placement.
+Vals == {"t", "None", "0", "''", "False"}
+Producer(v, gen) == IF gen THEN MkNodeY(2, 2, <<>>, 2, IntA(7), <<"t", v>>) ELSE MkNodeY(1, 1, <<>>, 2, IntA(7), <<v>>)
+ConsN(o, st, twice) == MkNode(1, 1, IF twice THEN <<<<1, o>>, <<1, o>>>> ELSE <<<<1, o>>>>, st)
+SameValueCases ==
+  UNION {{[place |-> pl, nodes |-> <<Producer(v, gen)>> \o cs] :
+            pl \in {"each", "one", "consumers"},
+            cs \in {<<ConsN(o, 3, FALSE), ConsN(o, 4, FALSE)>>, <<ConsN(o, 3, TRUE)>>, <<ConsN(o, 5, TRUE), ConsN(o, 1, FALSE)>>,
+                    <<ConsN(o, 1, FALSE), ConsN(o, 3, FALSE), ConsN(o, 6, TRUE)>>}}
+         : <<v, gen, o>> \in {<<v, FALSE, 0>> : v \in Vals} \cup {<<v, TRUE, 1>> : v \in Vals}}
+\* and every placement for the graphs of part (3) that have a consumer
+PlacedFalsy == {[place |-> pl, nodes |-> c.nodes] : pl \in {"one", "consumers"}, c \in {c \in FalsyCases : Len(c.nodes) >= 2}}
+
 \* (6) hand-built JOBS (no graph, no graph2job): single-output tasks made with TaskBuilder.from_callable(..).with_values(..)
 \*     ("from_callable": the signature defaults are recorded as static keyword values) or as raw TaskInstances ("raw"), edges
 \*     made by hand.  An "in" item among args / as a kwargs value is an edge into that position / keyword; `shadow` is the static
@@ -166,9 +182,9 @@ FinalArgs(nd) == nd.args \o [m \in 1..Cardinality((1..Len(nd.inputs)) \ Mentione
                                InA(SetToSortSeq((1..Len(nd.inputs)) \ Mentioned(nd), LAMBDA x, y : x < y)[m])]
 PosOfInput(nd, k) == CHOOSE p \in DOMAIN FinalArgs(nd) : FinalArgs(nd)[p].t = "in" /\ FinalArgs(nd)[p].i = k
 RECURSIVE CallStr(_, _)
-OutStr(c, p, o) == IF c.nodes[p].nout = 1 THEN CallStr(c, p)
-                   ELSE IF c.nodes[p].yvals[o + 1] = "t" THEN CallStr(c, p) \o "#" \o ToString(o)
-                   ELSE c.nodes[p].yvals[o + 1]
+OutStr(c, p, o) == IF c.nodes[p].yvals[o + 1] # "t" THEN c.nodes[p].yvals[o + 1]      \* a literal None / 0 / '' / False
+                   ELSE IF c.nodes[p].nout = 1 THEN CallStr(c, p)
+                   ELSE CallStr(c, p) \o "#" \o ToString(o)
 Render(c, j, a) == IF a.t = "int" THEN ToString(a.i)
                    ELSE IF a.t = "str" THEN "'" \o a.s \o "'"
                    ELSE IF a.t = "none" THEN "None"
@@ -235,7 +251,7 @@ Post(c, r) ==
   \cup (IF \A j \in good : nm(j) \notin SetOf(r.failures) THEN {} ELSE {"task_failure_without_cause"})
 
 \* ======================================================================== the two TLC passes
-Generate == JsonSerialize(IOEnv.CASES_FILE, SetToSeq(BindCases) \o SetToSeq(OutCases) \o SetToSeq(FalsyCases) \o SetToSeq(HandCases) \o SetToSeq(SharedFnCases) \o SetToSeq(JobCases))
+Generate == JsonSerialize(IOEnv.CASES_FILE, SetToSeq(BindCases) \o SetToSeq(OutCases) \o SetToSeq(FalsyCases) \o SetToSeq(HandCases) \o SetToSeq(SharedFnCases) \o SetToSeq(JobCases) \o SetToSeq(SameValueCases) \o SetToSeq(PlacedFalsy))
 Judge ==
   LET cs == JsonDeserialize(IOEnv.CASES_FILE)
       rs == JsonDeserialize(IOEnv.RESULTS_FILE)
